@@ -19,6 +19,7 @@ HALVES = {
     "C11": props.C11_SERVER_PART,
     "C14": props.C14_SERVER_PART,
     "C18": props.C18_SERVER_PART,
+    "C02": props.C02_SERVER_PART,
 }
 
 
@@ -64,7 +65,7 @@ def main():
                 lines += [l.strip() for l in open(os.path.join(cdir, f)) if l.strip() and not l.startswith("#")]
         lines += R.gen_lines(seed, spec[tier]["count"])
         if tier == "thorough":
-            lines += [l for l in V.harness(["srv", "sweep"] + spec["gen_args"], timeout=1500).split("\n") if l.strip()]
+            lines += [l for l in V.harness([spec["harness"], "sweep"] + spec["gen_args"], timeout=1500).split("\n") if l.strip()]
         cases, codes = R.run_scripts(lines, "main")
         mism = [i for i, c in enumerate(codes) if c & 1]
         monf = [i for i, c in enumerate(codes) if c & 2]
